@@ -39,8 +39,15 @@ def make_conn(stream, fail_at=None):
         mode = args[0] if args else 'r'
         f = pm.AMock('rfile' if 'r' in mode else 'wfile', {
             'read': read, 'close': lambda i, b, a, k, n: st['closed'].append(b.name),
-            'write': lambda i, b, a, k, n: log_event('wire', a[0]), 'flush': lambda i, b, a, k, n: None})
+            'write': write, 'flush': lambda i, b, a, k, n: None})
         return f
+
+    def write(interp, base, args, kwargs, node):
+        if st.get('broken_pipe'):
+            log_event('wire-error', args[0])
+            raise AbsRaise('OSError', node, attrs={'errno': 32, 'args': (32, 'Broken pipe'), 'strerror': 'Broken pipe'})
+        log_event('wire', args[0])
+        return None
 
     def read(interp, base, args, kwargs, node):
         if args and args[0] != 1:
